@@ -91,7 +91,9 @@ Observations == IF Mode = "judge" THEN ndJsonDeserialize(InFile) ELSE <<>>
 Key(u) == <<u.scheme, u.host, u.abs, u.segs, u.query, u.hasfrag>>
 Verdict(o) ==
   [ id |-> o.id,
-    c11canon |-> IF o.outcome = "ok" /\ {Key(o.loads[i]) : i \in 1..Len(o.loads)} = {Key(e) : e \in Expected}
+    \* (the entry "...:id" expands a self-contained root schema with an id: nothing is to be fetched)
+    c11canon |-> IF o.outcome = "ok" /\ {Key(o.loads[i]) : i \in 1..Len(o.loads)} =
+                                         (IF o.api = "ExpandSchemaWithBasePath:id" THEN {} ELSE {Key(e) : e \in Expected})
                  THEN "pass" ELSE "fail",
     c11out   |-> IF o.outcome = "ok" /\ o.sameout THEN "pass" ELSE "fail" ]
 
